@@ -162,6 +162,11 @@ fn expand_struct_assertion(value_expr: &TokenStream, pattern: &PatternStruct) ->
         })
         .collect();
 
+    // Bind fields under reserved names, not under their own names, so that the
+    // bindings cannot capture identifiers in the caller's expressions
+    // (`User { name: == name, .. }` must compare with the caller's `name`).
+    let field_bindings: Vec<_> = field_names.iter().map(hygienic_field_binding).collect();
+
     let rest_pattern = if rest {
         quote! { , .. }
     } else {
@@ -171,7 +176,7 @@ fn expand_struct_assertion(value_expr: &TokenStream, pattern: &PatternStruct) ->
     let field_assertions: Vec<_> = fields
         .iter()
         .map(|f| {
-            let field_name = f.operations.root_field_name();
+            let field_name = hygienic_field_binding(&f.operations.root_field_name());
 
             // Expand the FieldAssertion starting from the bound field name
             let assertion = expand_field_assertion(&quote! { #field_name }, f);
@@ -197,7 +202,7 @@ fn expand_struct_assertion(value_expr: &TokenStream, pattern: &PatternStruct) ->
     quote_spanned! {span=>
         #[allow(unreachable_patterns)]
         match &#value_expr {
-            #struct_path { #(#field_names),* #rest_pattern } => {
+            #struct_path { #(#field_names: #field_bindings),* #rest_pattern } => {
                 #(#field_assertions)*
             },
             _ => {
@@ -205,6 +210,22 @@ fn expand_struct_assertion(value_expr: &TokenStream, pattern: &PatternStruct) ->
             }
         }
     }
+}
+
+/// The binding a destructured field is given: `field: __assert_struct_field_<field>`.
+/// A reserved name is used so that the binding cannot capture identifiers in the
+/// caller's expressions.
+fn hygienic_field_binding(name: &crate::pattern::FieldName) -> TokenStream {
+    let binding = match name {
+        // Keep the user's span so that diagnostics still point at the field.
+        crate::pattern::FieldName::Ident(ident) => {
+            quote::format_ident!("__assert_struct_field_{}", ident, span = ident.span())
+        }
+        crate::pattern::FieldName::Index(index) => {
+            quote::format_ident!("__assert_struct_field_{}", index)
+        }
+    };
+    quote! { #binding }
 }
 
 /// Generate wildcard struct assertion using direct field access
